@@ -7,6 +7,7 @@
 """
 import itertools
 import os
+import random
 import re
 import signal
 import subprocess
@@ -40,7 +41,7 @@ def with_timeout(seconds, fn, *a, **kw):
 
 # ------------------------------------------------------------------------------------------------ generator
 def gen_program(rng, cyclic=True, negation=True, ads=True, evidence=True, max_level=2, negloops=0.0, big=False,
-                disjunction=False):
+                disjunction=False, numeric=False):
     """Typed random program: base facts (probabilistic/deterministic), derived predicates on levels (negation only on
     strictly lower levels => predicate-level stratified; positive recursion allowed within a level), ADs with and
     without bodies, ground and non-ground queries, evidence that holds in a sampled world (consistent by construction,
@@ -216,7 +217,68 @@ def gen_program(rng, cyclic=True, negation=True, ads=True, evidence=True, max_le
             if rng.random() < 0.3:
                 alias_val = not alias_val
             P["evidence"] = [(a, v) for a, v in P["evidence"] if a != at and a != (name, ())] + [(at, base), ((name, ()), alias_val)]
+    _post_shapes(P, random.Random("post|" + repr((stmts, qs, P["evidence"]))), max_level, evidence, numeric, negation)
+    P.pop("_world", None)
     return P
+
+
+def _post_shapes(P, r2, max_level, evidence=True, numeric=False, negation=True):
+    """Shapes added AFTER the main draw, from a generator seeded by the program text (the main random stream, and with it
+    every program of every seed, stays what it was): (1) a new predicate whose clause body is a single NEGATIVE ground
+    literal, optionally with the complementary positive clause (`nb :- \\+f(c). nb :- f(c).`: two bare-literal proofs that
+    are each other's complement), a user of it, queries, and evidence on it where that is consistent by construction;
+    (2) numeric constants (an integer and a float) instead of two of the atoms."""
+    pfs = [st[2] for st in P["stmts"] if st[0] == "pf" and 0 < st[1] < 1]
+    if pfs and negation and r2.random() < 0.3:
+        at = r2.choice(pfs)
+        lvl = 1 + max(l for a, l in P["preds"].values())
+        P["preds"]["nb"] = (0, lvl)
+        new = [("rule", ("nb", ()), [("neg", at)])]
+        compl = r2.random() < 0.5
+        if compl:
+            new.append(("rule", ("nb", ()), [("pos", at)]))
+            r2.shuffle(new)
+        if r2.random() < 0.5:
+            other = r2.choice(pfs)
+            P["preds"]["nu"] = (0, lvl + 1)
+            new.append(("rule", ("nu", ()), [("pos", ("nb", ())), ("pos", other)]))
+            if r2.random() < 0.7:
+                P["queries"].append(("nu", ()))
+        if r2.random() < 0.6 or "nu" not in P["preds"]:
+            P["queries"].append(("nb", ()))
+        for st in new:
+            P["stmts"].insert(r2.randrange(len(P["stmts"]) + 1), st)
+        if not evidence:
+            pass                                                          # the caller asked for programs without evidence
+        elif compl and r2.random() < 0.4:
+            P["evidence"] = P["evidence"] + [(("nb", ()), True)]          # nb is certainly true: consistent with anything
+        elif not compl and not P["evidence"] and r2.random() < 0.4:
+            P["evidence"] = [(("nb", ()), r2.random() < 0.5)]            # the fact is open: both values have probability > 0
+        elif not compl and P.get("_world") is not None and r2.random() < 0.5:
+            # the value nb has in the world the other evidence was sampled from: jointly consistent
+            P["evidence"] = P["evidence"] + [(("nb", ()), at not in P["_world"])]
+    if numeric and r2.random() < 0.12 and len(P["consts"]) >= 2:
+        ren = dict(zip(P["consts"][1:], ["1", "2.5"]))
+        f = lambda at: (at[0], tuple(ren.get(x, x) for x in at[1]))
+
+        def fl(l):
+            return (l[0], (f(l[1][0]), f(l[1][1]))) if l[0] == "or" else (l[0], f(l[1]))
+        out = []
+        for st in P["stmts"]:
+            if st[0] == "pf":
+                out.append(("pf", st[1], f(st[2])))
+            elif st[0] == "fact":
+                out.append(("fact", f(st[1])))
+            elif st[0] == "rule":
+                out.append(("rule", f(st[1]), [fl(l) for l in st[2]]))
+            elif st[0] == "prule":
+                out.append(("prule", st[1], f(st[2]), [fl(l) for l in st[3]]))
+            else:
+                out.append(("ad", [(p, f(h)) for p, h in st[1]], [fl(l) for l in st[2]]))
+        P["stmts"] = out
+        P["queries"] = [f(q) for q in P["queries"]]
+        P["evidence"] = [(f(a), v) for a, v in P["evidence"]]
+        P["consts"] = [ren.get(c, c) for c in P["consts"]]
 
 
 def add_evidence(P, rng, inconsistent=False):
@@ -250,6 +312,8 @@ def add_evidence(P, rng, inconsistent=False):
         if all(e[0] != (p, args) for e in evs):
             evs.append(((p, args), val))
     P["evidence"] = evs
+    if not inconsistent:
+        P["_world"] = m     # the sampled world's true atoms (removed again by gen_program)
 
 
 def atom_s(at):
